@@ -208,11 +208,33 @@ func (dc *dataChunk) endGCWriting() (err error) {
 		dc.gcWriter.Close()
 		dc.gcWriter = nil
 	}
-	if dc.rewriting && dc.writingHead < dc.size {
+	if dc.rewriting && (dc.writingHead < dc.size || dc.size == 0) {
 		dc.Truncate(dc.writingHead)
 		dc.size = dc.writingHead
 	}
 	dc.rewriting = false
+	return
+}
+
+// dropStaleTail is called when GC has read to its end the file it rewrites in place: what lies beyond the
+// writing head is garbage from then on, and it must be gone before a later source file is removed. Otherwise a
+// process kill leaves superseded records in this file while the records or delete markers that supersede
+// them have died with their source file.
+func (dc *dataChunk) dropStaleTail() (err error) {
+	if !dc.rewriting || dc.writingHead >= dc.size {
+		return
+	}
+	if dc.gcWriter != nil {
+		if err = dc.gcWriter.wbuf.Flush(); err != nil {
+			return
+		}
+	}
+	logger.Infof("drop stale tail of %s: %d to %d", dc.path, dc.size, dc.writingHead)
+	verifPoint("fs.truncate", dc.path, int64(dc.writingHead))
+	if err = os.Truncate(dc.path, int64(dc.writingHead)); err != nil {
+		return
+	}
+	dc.size = dc.writingHead
 	return
 }
 
